@@ -357,6 +357,16 @@ def run_history(sess, rng, fam, oracle, max_steps=None):
                 if not keys:
                     continue
             key = keys[rng.randrange(len(keys))]
+            sibs = [k for k in keys if k[2] is not None and k[:2] == key[:2] and k != key
+                    and sess.last_reported.get(k) not in ("paused", "pending")]
+            if key[2] is not None and sibs and rng.random() < fam.get("p_item_mix", 0.0):
+                # one item fails and the provider pauses the other in-flight items of the task: the task sees a mix
+                # of failed and paused items with none active
+                sess.report(key, "failed", None)
+                for k in sibs:
+                    if k in sess.inflight:
+                        sess.report(k, "paused", None)
+                continue
             if rng.random() < fam["p_intermediate"]:
                 if fam.get("lifecycle"):
                     # a plausible action lifecycle: running -> pausing -> paused -> resuming -> running, running -> canceling
